@@ -154,7 +154,7 @@ def main():
     for name in fns:
         m = re.match(r"relation::<impl at src/relation/mod\.rs:(\d+):\d+: \d+:\d+>::size(::\{closure#1\})?$", name)
         if m:
-            line = open("/repo/src/relation/mod.rs").read().split("\n")[int(m.group(1)) - 1]
+            line = open(__import__("paths").REPO + "/src/relation/mod.rs").read().split("\n")[int(m.group(1)) - 1]
             mm = re.match(r"impl (Map|Reduce|Join|Set) \{", line)
             if mm:
                 has_closure = (name + "::{closure#1}") in fns
